@@ -24,7 +24,8 @@ def c13_groups(tier, tag='C13'):
     Ms = list(C13_LISTED)
     if tier == 'thorough':
         rnd = random.Random(int(os.environ.get('VERIF_SEED', '0') or 0))
-        Ms += list(range(2, 257)) + [1 << k for k in range(1, 32)] + [rnd.randrange(2, 32769) for _ in range(300)]
+        # all of [2,256], every power of two, seeded values: 60 in [257,4096] (0.5-15 s each), 40 in (4096, 32768] (100-170 s each: the constant divider)
+        Ms += list(range(2, 257)) + [1 << k for k in range(1, 32)] + [rnd.randrange(257, 4097) for _ in range(60)] + [rnd.randrange(4097, 32769) for _ in range(40)]
         Ms = sorted(set(Ms))
     gs = []
     for M in Ms:
@@ -827,7 +828,7 @@ PROPS = {
         'level': 'proof',
         'explanation': 'Each group is a complete proof over all 2^32 phases / all mu in [0,M) for one constant message-space size M '
                        '(the 64-bit divider with a symbolic divisor does not terminate in any installed solver, so M is enumerated).',
-        'assumptions': STD_ASSUME + ['message-space sizes outside the enumerated list (quick: the 13 values of the property; thorough: [2,256], all 2^k, 300 seeded values in [2,2^15]) are not covered'],
+        'assumptions': STD_ASSUME + ['message-space sizes outside the enumerated list (quick: the 13 values of the property; thorough: [2,256], all 2^k, 100 seeded values in [257,2^15]) are not covered'],
         'trusted': [],
     },
     'C14': {
